@@ -12,7 +12,7 @@ import (
 
 func init() {
 	register(&Rule{
-		ID: "IT-7", Props: []string{"C03", "C16", "C01", "C06"}, Min: 6,
+		ID: "IT-7", Props: []string{"C03", "C16", "C01", "C06", "C05"}, Min: 6,
 		Doc: `pushed buffers are not reused: when a producer pushes a batch built from a local slice variable (MakeBioSequenceBatch(_, _, X), a composite batch, or *X),
 then on every path X must be re-bound to something else (a fresh MakeBioSequenceSlice()/make/nil, or a new value) before the producer appends to X or re-slices it:
 'X = X[:0]' / append(X, …) right after the push shares the backing array with the batch the consumer is still reading (records lost or duplicated under load).
@@ -23,7 +23,7 @@ Typestate over go/cfg, one obligation per pushed slice variable.`,
 
 func runIT7(c *Ctx, s *Sink) {
 	for _, h := range itHandles(c) {
-		props := itProps(h)
+		props := append(append([]string{}, itProps(h)...), "C05")
 		type unit struct {
 			body *itBody
 			v    types.Object
